@@ -19,6 +19,8 @@ CLAIMS = {
                 note=_NOTE, technique="symbolic execution of extrapolate_templates/pattern_replacing (CrossHair+z3) over a solver-enumerated configuration grammar; reference comparison of the live table"),
     "C13": dict(text=_X + ". The three real cache wrappers are executed on 3-call histories with mixed positional/keyword passing and forced eviction; the real cached entry points (path, Sid(path=), path_to_dict, unfold_search) on 2-call histories with caches on. Domains are finite (hashing realises), so the solver enumerates histories.",
                 note=_NOTE, technique="symbolic execution (CrossHair+z3) of the cache wrappers and cached entry points on solver-enumerated 2-3 call histories, compared with the unwrapped functions"),
+    "C07": dict(text=_X + ". The real unfold_search is run on search skeletons with symbolic tokens against a reference unfolder written from the statement (aliases, ',' distribution, '**' completion to leaf types, narrowing, trailing query as filter); the only-SpilException clause on fully symbolic short strings with log calls kept.",
+                note=_NOTE, technique="symbolic execution of unfold_search and its unfolders (CrossHair+z3) against a reference unfolder, skeletons with symbolic tokens"),
 }
 
 NOT_APPLICABLE = {}
